@@ -119,4 +119,40 @@ def run(src, tier, seed):
             res.ok(r, '%s: throws when status != s_True' % fname)
         else:
             res.bad(r, 'query-unguarded:%s' % fname, fx.loc(f), '%s answers although the solver is not in the sat state' % fname)
+    # ---- R5 fresh numeric values in UF+arithmetic models stay fresh
+    r = res.rule('fresh-model-values', 'EgraphModelBuilder::computeNumericValues: every value recorded for a class in the collecting loop also raises the running maximum '
+                 '(updateMaxValue with the same value), so that the fresh values max+1, max+2, ... handed to value-less classes cannot coincide with a value already in use; '
+                 'the allocation loop advances the maximum after each fresh value', floor=3)
+    cn = fx.func('opensmt::EgraphModelBuilder::computeNumericValues')
+
+    def ins_value(n):
+        if n.get('k') == 'call' and mname(n) == 'insert' and recv_path(n) == 'updatedValues' and len(n.get('a', [])) == 2:
+            return path_of(n['a'][1]) or n['a'][1]
+        return None
+    n_ins = 0
+    for blk in (b for b in walk(cn['body']) if b.get('k') == 'seq'):
+        items = [x for x in blk['c'] if isinstance(x, dict)]
+        for i, st in enumerate(items):
+            if st.get('k') != 'e' or not isinstance(see_through(st.get('e')), dict):
+                continue
+            v = ins_value(see_through(st['e']))
+            if v is None:
+                continue
+            n_ins += 1
+            after = items[i + 1:]
+            ok = False
+            for a in after:
+                for x in walk(a):
+                    if x.get('k') == 'call' and x.get('op') == '()' and path_of(x.get('recv')) == 'updateMaxValue' and isinstance(v, str) and v in str(x.get('a')):
+                        ok = True
+                    aa = as_assign(x) if isinstance(x, dict) else None
+                    if aa and path_of(aa[0]) == 'maxModelValue':
+                        ok = True
+            if ok:
+                res.ok(r, 'line %s: recorded value also raises the maximum' % st.get('ln'))
+            else:
+                res.bad(r, 'value-not-counted:%s' % (v if isinstance(v, str) else 'expr'), fx.loc(cn, st.get('ln')), 'computeNumericValues records a value for a class (line %s) without raising the running maximum: '
+                        'a later fresh value max+k can equal it, and two classes that must differ get the same value in the model' % st.get('ln'))
+    if n_ins < 3:
+        raise AnalysisBroken('computeNumericValues: expected three recording sites, found %d' % n_ins)
     return res
